@@ -175,7 +175,7 @@ pub fn floors(ctx: &Ctx, acc: &mut Acc, which: &[&'static str], min_must: u64, m
 
 /// deeply nested programs (operator chains and else-if chains of 70-300 links) with detector-relevant constructs at the deepest point
 fn deep_run(ctx: &Ctx, acc: &mut Acc, which: &'static [&'static str]) {
-    let n = ctx.tier.pick(24u64, 200u64);
+    let n = ctx.tier.pick(24u64, 400u64);
     run_workload(ctx, acc, "deep", n, |k, rng, acc| {
         let depth = [70usize, 100, 150, 300][(k % 4) as usize];
         let f = crate::deep::deep_file(rng, depth);
@@ -217,7 +217,7 @@ pub fn run_c05(ctx: &Ctx) -> i32 {
          with canonical and near-miss forms of the 11 expression-level detectors planted at random. Spec predicates on the generator's AST give MUST / MUST_NOT / DONT_CARE per construct; a run passes for (file, detector) iff must ⊆ reported ⊆ must ∪ dontcare, \
          judged in the one-token-per-line layout (line == token) and in a second layout. evaluation = one (program, layout, detector) judgement; non-trivial = program text in which some detector has both a MUST and a labelled MUST_NOT construct; distinct by text",
     );
-    let n = ctx.tier.pick(3000u64, 60000u64);
+    let n = ctx.tier.pick(3000u64, 240000u64);
     generic_run(ctx, &mut acc, &C05_DETS, "generated", n, |_k, _rng| Cfg::normal());
     deep_run(ctx, &mut acc, &C05_DETS);
     floors(ctx, &mut acc, &C05_DETS, ctx.tier.pick(500, 5000), ctx.tier.pick(500, 2000));
@@ -312,13 +312,13 @@ pub fn run_c06(ctx: &Ctx) -> i32 {
          constructors first / after modifiers only / after a function / after receive / absent / only in later contracts; up to 300 members before a constructor. Spec predicates (DESIGN.md 8.2) decide MUST / MUST_NOT / DONT_CARE per declaration. \
          evaluation = one (program, layout, detector) judgement; non-trivial and distinct as in C05",
     );
-    let n = ctx.tier.pick(2500u64, 40000u64);
+    let n = ctx.tier.pick(2500u64, 120000u64);
     generic_run(ctx, &mut acc, &C06_DETS, "generated", n, |_k, _rng| {
         let mut c = Cfg::normal();
         c.max_items = 6;
         c
     });
-    let ns = ctx.tier.pick(1500u64, 25000u64);
+    let ns = ctx.tier.pick(1500u64, 75000u64);
     run_workload(ctx, &mut acc, "shaped", ns, |k, rng, acc| {
         let f = c06_shaped(k, rng);
         if let Some(p) = prepare(f, acc) {
@@ -529,9 +529,9 @@ pub fn run_c07(ctx: &Ctx) -> i32 {
          multiplication/division chains with parentheses; /= chains over ten operators; member names transfer/transferFrom/approve and look-alikes on every receiver shape; pragma spellings (none, ^, '^ ', =, >=, ~, ranges). \
          evaluation = one (program, layout, detector) judgement; non-trivial and distinct as in C05",
     );
-    let n = ctx.tier.pick(2500u64, 40000u64);
+    let n = ctx.tier.pick(2500u64, 240000u64);
     generic_run(ctx, &mut acc, &C07_DETS, "generated", n, |k, _rng| if k % 3 == 0 { Cfg { pragma: None, hostile: false, ..Cfg::normal() } } else { Cfg::normal() });
-    let ns = ctx.tier.pick(3000u64, 50000u64);
+    let ns = ctx.tier.pick(3000u64, 300000u64);
     run_workload(ctx, &mut acc, "shaped", ns, |k, rng, acc| {
         let f = c07_shaped(k, rng);
         if let Some(p) = prepare(f, acc) {
@@ -833,9 +833,9 @@ pub fn run_c08(ctx: &Ctx) -> i32 {
          functions / modifiers / fallback with each of the 15 write operators (=, 10 compound, ++/-- prefix and postfix) and delete applied to a state variable or memory parameter directly, through an index, a member or parentheses, planted as a statement, under **, under a prefix operator, in a catch body, call argument, unchecked block, for-update, return, ternary arm, index, modifier argument, do-while body, emit argument. \
          Spec predicates (DESIGN.md 8.4) on the generator's AST. evaluation = one (program, layout, detector) judgement; non-trivial and distinct as in C05",
     );
-    let n = ctx.tier.pick(2500u64, 40000u64);
+    let n = ctx.tier.pick(2500u64, 200000u64);
     generic_run(ctx, &mut acc, &C08_DETS, "generated", n, |_k, _rng| Cfg::normal());
-    let ns = ctx.tier.pick(4000u64, 60000u64);
+    let ns = ctx.tier.pick(4000u64, 300000u64);
     run_workload(ctx, &mut acc, "shaped", ns, |k, rng, acc| {
         let f = c08_shaped(k, rng);
         if let Some(p) = prepare(f, acc) {
@@ -979,7 +979,7 @@ pub fn run_c09(ctx: &Ctx) -> i32 {
             versions.push((1, m, p));
         }
     }
-    let per_version = ctx.tier.pick(4u64, 40u64);
+    let per_version = ctx.tier.pick(4u64, 300u64);
     let nv = versions.len() as u64;
     run_workload(ctx, &mut acc, "version-sweep", nv * per_version, |k, rng, acc| {
         let v = versions[(k % nv) as usize];
@@ -1004,7 +1004,7 @@ pub fn run_c09(ctx: &Ctx) -> i32 {
         }
     });
     meta.exhaustive_subspaces.push("all 984 version triples 0.0.0..0.20.40 and 1.0.0..1.2.40, each with at least two bodies".into());
-    let nr = ctx.tier.pick(5000u64, 80000u64);
+    let nr = ctx.tier.pick(5000u64, 600000u64);
     run_workload(ctx, &mut acc, "random-versions", nr, |k, rng, acc| {
         let comp = |rng: &Rng| -> u64 {
             match rng.below(5) {
